@@ -154,7 +154,8 @@ class Maximizer(FormulaStep):
         """
         val2 = eval_stack.pop()
         val1 = eval_stack.pop()
-        res = max(val1, val2)
+        # `max` keeps its first argument when the second one is NaN.
+        res = val2 if math.isnan(val2) else max(val1, val2)
         eval_stack.append(res)
 
 
@@ -177,7 +178,8 @@ class Minimizer(FormulaStep):
         """
         val2 = eval_stack.pop()
         val1 = eval_stack.pop()
-        res = min(val1, val2)
+        # `min` keeps its first argument when the second one is NaN.
+        res = val2 if math.isnan(val2) else min(val1, val2)
         eval_stack.append(res)
 
 
